@@ -296,7 +296,9 @@ def run(ctx: core.Ctx) -> None:
     ctx.assumptions += ['reference peer table vt/ref/wire.PeerTable', 'a lost connection = EOF/RST on read or every further write failing']
     pool = mp.Pool(min(16, os.cpu_count() or 1))
     try:
-        for job, (viols, outcome, nmsg) in zip(jobs, pool.imap(run_one, jobs, chunksize=4)):
+        results = pool.map(run_one, jobs, chunksize=4)
+        core.replay_check(ctx, pool, run_one, jobs, results)
+        for job, (viols, outcome, nmsg) in zip(jobs, results):
             ctx.count('executions')
             ctx.count('transitions', nmsg + 1)
             ctx.add_to_set('outcomes', outcome)
